@@ -10,6 +10,7 @@ import (
 	"net/http"
 	"os"
 	"path"
+	"path/filepath"
 	"sort"
 	"strings"
 	"syscall"
@@ -548,6 +549,49 @@ func (l *recLoader) Get(p string) (io.Reader, error) {
 	return r, nil
 }
 
+// mirrorLoader puts the real LocalFilesystemLoader under the simulated disk: for every Get the
+// simulator decides first (yield point, fault point, history event, which version is current),
+// then exactly that decision is materialised in a real directory - the file rewritten with the
+// version being served, or removed - and the real loader reads it from there. Rewrites keep the
+// modification time fixed (deployment tools that preserve mtimes do the same), and the versions
+// of a file have the same length more often than not.
+type mirrorLoader struct {
+	w    *World
+	disk int
+	root string
+	real pongo2.TemplateLoader
+}
+
+var mirrorMtime = time.Date(2020, 1, 2, 3, 4, 5, 0, time.UTC)
+
+func (l *mirrorLoader) Abs(base, name string) string { return l.real.Abs(base, name) }
+
+func (l *mirrorLoader) Get(p string) (io.Reader, error) {
+	rel, err := filepath.Rel(l.root, p)
+	if err != nil || strings.HasPrefix(rel, "..") {
+		return l.real.Get(p)
+	}
+	f, err := l.w.open(l.disk, filepath.ToSlash(rel))
+	if err != nil {
+		if errors.Is(err, fs.ErrNotExist) {
+			os.Remove(p)
+			return l.real.Get(p) // the real loader reports the miss its own way
+		}
+		return nil, err
+	}
+	if f.hasFail || f.chunk > 0 {
+		return f, nil // read faults are the simulated reader's business
+	}
+	if err := os.MkdirAll(filepath.Dir(p), 0o755); err != nil {
+		return nil, err
+	}
+	if err := os.WriteFile(p, []byte(f.data), 0o644); err != nil {
+		return nil, err
+	}
+	os.Chtimes(p, mirrorMtime, mirrorMtime)
+	return l.real.Get(p)
+}
+
 // LoaderSpec describes one loader of a set.
 type LoaderSpec struct {
 	Kind    string `json:"kind"` // "fs", "http", "httpbase", "virt", "virtrel", "local", "localbase"
@@ -573,6 +617,8 @@ func (w *World) MakeLoader(id int, ls LoaderSpec) pongo2.TemplateLoader {
 		inner = pongo2.MustNewLocalFileSystemLoader("")
 	case "localbase":
 		inner = pongo2.MustNewLocalFileSystemLoader(ls.BaseDir)
+	case "localmirror":
+		inner = &mirrorLoader{w: w, disk: ls.Disk, root: ls.BaseDir, real: pongo2.MustNewLocalFileSystemLoader(ls.BaseDir)}
 	default:
 		panic("unknown loader kind " + ls.Kind)
 	}
